@@ -530,7 +530,20 @@ def run(ctx):
             if k % 5 in (3, 4):
                 fill = 12
                 ctx.bump("cases_with_filler_rows")
-            cases.append(build_case("r%d" % n, ctx.rng, schema, first, fill))
+            c = build_case("r%d" % n, ctx.rng, schema, first, fill)
+            # table objects are cheap handles onto one connection and a program may keep several: in one case in three every
+            # reading call goes through objects obtained once and kept, while the writing calls use fresh ones - and in another
+            # third the other way round.  Whatever one object writes, every other one must read.
+            if k % 3 in (1, 2):
+                readers = k % 3 == 1
+                for o in c["ops"]:
+                    name = o.get("op", "")
+                    if name.startswith(("trk_", "pl_", "pe_")):
+                        is_read = any(t in name for t in ("_get", "_exists", "_ids", "_find", "_track_ids"))
+                        if is_read == readers:
+                            o["held"] = True
+                ctx.bump_in("cases_with_long_lived_table_objects", "readers kept" if readers else "writers kept")
+            cases.append(c)
             n += 1
     r1 = cases[0]["_rows"][0]
     ctx.sample({"schema": cases[0]["schema"], "row": {k: (str(v)[:50]) for k, v in list(r1.items())[:14]}})
